@@ -381,8 +381,14 @@ func (vc *VC) mapCard(mapSort, keySort, t string) string {
 	key := "card:" + c
 	if !vc.wf[key] && !strings.Contains(t, "?") {
 		vc.wf[key] = true
+		// len(m) >= 0; len(m) > 0 iff some key is present (one direction universally quantified over keys,
+		// the other through a witness function: no quantifier alternation)
+		wit := "cardwit_" + keySort
+		vc.declareFun(wit, []string{fmt.Sprintf("(Array %s Bool)", keySort)}, keySort)
+		dom := fmt.Sprintf("(dom_%s %s)", mapSort, t)
 		vc.fact(fmt.Sprintf("(>= %s 0)", c))
-		vc.fact(fmt.Sprintf("(= (= %s 0) (forall ((?k %s)) (not (select (dom_%s %s) ?k))))", c, keySort, mapSort, t))
+		vc.fact(fmt.Sprintf("(forall ((?k %s)) (! (=> (select %s ?k) (>= %s 1)) :pattern ((select %s ?k))))", keySort, dom, c, dom))
+		vc.fact(fmt.Sprintf("(=> (>= %s 1) (select %s (%s %s)))", c, dom, wit, dom))
 	}
 	return c
 }
